@@ -11,9 +11,15 @@ export GOFLAGS= GOPROXY=off GOSUMDB=off GOTOOLCHAIN=local
 git -C /repo worktree add -q --detach $WT HEAD || exit 3
 trap 'git -C /repo worktree remove --force $WT >/dev/null 2>&1; git -C /repo worktree prune; rm -rf /verif/.build/alt-$TAG /verif/.work/alt-$TAG' EXIT
 cp $DIR/demo_test.go $WT/$PKG/zz_seed_demo_test.go
-gotest() { # dir-relative pkg, extra args
-  local d=$WT/$1; shift
-  case "$d" in *internal/dnsserver*) (cd $WT/internal/dnsserver && go test -vet=off -count=1 "$@" ./${d#$WT/internal/dnsserver/}) ;; *) (cd $WT && go test -vet=off -count=1 "$@" ./${d#$WT/}) ;; esac
+# run tests in a private network namespace: loopback ports are contended on a busy machine
+NS="unshare -n /verif/tools/withlo.sh"
+gotest() { # pkg dir relative to the repo root, extra args
+  local rel=$1; shift
+  case "$rel" in
+    internal/dnsserver) (cd $WT/internal/dnsserver && $NS go test -vet=off -count=1 "$@" .) ;;
+    internal/dnsserver/*) (cd $WT/internal/dnsserver && $NS go test -vet=off -count=1 "$@" ./${rel#internal/dnsserver/}) ;;
+    *) (cd $WT && $NS go test -vet=off -count=1 "$@" ./$rel) ;;
+  esac
 }
 echo "== demo on unchanged tree (must pass)"
 gotest $PKG -run "$RUN" > /tmp/sc-$$.a 2>&1; A=$?; tail -3 /tmp/sc-$$.a
